@@ -2,6 +2,8 @@
    ONLY the property theorems (closed by `exact`), each followed by Print Assumptions.
    Model: Compat.v (compatibility.rs tables + the executor's lookups) over Types.v / Rel.v
    (`current_cfg` = check_type_relation as in /repo).  Specification of membership: Sem.v.
+   Since 5eb967d (fix of F70) the tables are computed over `ci_xreg I`: the program's types extended
+   with the process type of every function that has none in the table (ids past the end).
 
    PROVED (every input, unbounded):
      table_is_relation        a tag is in the row of pattern t  <->  the tag's type — the FIRST
@@ -12,7 +14,10 @@
                               Process (receive, result) of the spawning function, resources by name
      istype_is_relation       IsType answers Ok  <->  t is a registered id named by some IsType
                               instruction and the tag's type is assignable to t
-     no_tuple_entry_never_accepted / no_type_entry_never_accepted (F70's mechanism)
+     no_tuple_entry_never_accepted / no_type_entry_never_accepted (F70's mechanism);
+     process_has_type_entry   since 5eb967d the process tag of EVERY function (with a callable type) has
+                              a type entry, so that mechanism can no longer silence a process value;
+     xreg_keeps_ids           the extension changes no id of the program's own types
      istype_sound             relative to C09: on the fragment where compat_sound is proved
                               (cf_domain: cycle-free ...), an accepted value that inhabits its tag's
                               type inhabits the pattern type
@@ -35,7 +40,7 @@ Proof. exact build_index_spec. Qed.
 Print Assumptions C08_index_first_occurrence.
 
 Theorem C08_table_is_relation : forall cfg fuel I c t,
-  In c (compute_compatible_concrete_types cfg fuel I (build_index (ci_reg I)) t) <-> accepts cfg fuel I c t = true.
+  In c (compute_compatible_concrete_types cfg fuel I (build_index (ci_xreg I)) t) <-> accepts cfg fuel I c t = true.
 Proof. exact table_is_relation. Qed.
 Print Assumptions C08_table_is_relation.
 
@@ -46,7 +51,7 @@ Proof. exact istype_is_relation. Qed.
 Print Assumptions C08_istype_is_relation.
 
 Theorem C08_no_tuple_entry_never_accepted : forall cfg fuel I tid t,
-  position (is_tuple tid) (types (ci_reg I)) = None ->
+  position (is_tuple tid) (types (ci_xreg I)) = None ->
   check_type_compatible (compute_type_compatibility cfg fuel I) (CTuple tid) t = false.
 Proof. exact no_tuple_entry_never_accepted. Qed.
 Print Assumptions C08_no_tuple_entry_never_accepted.
@@ -57,34 +62,47 @@ Theorem C08_no_type_entry_never_accepted : forall cfg fuel I c t,
 Proof. exact no_type_entry_never_accepted. Qed.
 Print Assumptions C08_no_type_entry_never_accepted.
 
+(* since 5eb967d (fix of F70): every function's process tag has a type entry *)
+Theorem C08_process_has_type_entry : forall I f fi p r rc,
+  nth_error (ci_functions I) f = Some fi ->
+  lookup_type (ci_reg I) (f_type_id fi) = Some (TCallable p r rc) ->
+  exists tau, type_of_tag I (CProcess f) = Some tau.
+Proof. exact process_has_type_entry. Qed.
+Print Assumptions C08_process_has_type_entry.
+
+Theorem C08_xreg_keeps_ids : forall I i t,
+  lookup_type (ci_reg I) i = Some t -> lookup_type (ci_xreg I) i = Some t.
+Proof. exact xreg_keeps_ids. Qed.
+Print Assumptions C08_xreg_keeps_ids.
+
 Theorem C08_istype_sound : forall cfg fuel I c t tau n v,
   cfg_retract cfg = true ->
   check_type_compatible (compute_type_compatibility cfg fuel I) c t = true ->
   type_of_tag I c = Some tau ->
-  cf_domain cfg (ci_reg I) tau = true -> cf_domain cfg (ci_reg I) t = true ->
-  inhab (ci_reg I) n [] v tau -> inhab (ci_reg I) n [] v t.
+  cf_domain cfg (ci_xreg I) tau = true -> cf_domain cfg (ci_xreg I) t = true ->
+  inhab (ci_xreg I) n [] v tau -> inhab (ci_xreg I) n [] v t.
 Proof. exact istype_sound. Qed.
 Print Assumptions C08_istype_sound.
 
 Theorem C08_istype_complete : forall cfg fuel I c t tau S,
   t < length (types (ci_reg I)) -> is_pattern I t = true ->
   type_of_tag I c = Some tau ->
-  is_compatible_with cfg fuel (ci_reg I) tau S = Some true ->
-  is_compatible_with cfg fuel (ci_reg I) S t = Some true ->
-  (is_compatible_with cfg fuel (ci_reg I) tau S = Some true -> is_compatible_with cfg fuel (ci_reg I) S t = Some true ->
-   is_compatible_with cfg fuel (ci_reg I) tau t = Some true) ->
+  is_compatible_with cfg fuel (ci_xreg I) tau S = Some true ->
+  is_compatible_with cfg fuel (ci_xreg I) S t = Some true ->
+  (is_compatible_with cfg fuel (ci_xreg I) tau S = Some true -> is_compatible_with cfg fuel (ci_xreg I) S t = Some true ->
+   is_compatible_with cfg fuel (ci_xreg I) tau t = Some true) ->
   check_type_compatible (compute_type_compatibility cfg fuel I) c t = true.
 Proof. exact istype_complete. Qed.
 Print Assumptions C08_istype_complete.
 
 Theorem C08_istype_complete_partial : forall cfg fuel I c t tau S,
   cfg_retract cfg = true -> cfg_partial_name cfg = true ->
-  trans_domain (ci_reg I) tau = true -> trans_domain (ci_reg I) S = true -> trans_domain (ci_reg I) t = true ->
+  trans_domain (ci_xreg I) tau = true -> trans_domain (ci_xreg I) S = true -> trans_domain (ci_xreg I) t = true ->
   tau + S < fuel -> S + t < fuel -> tau + t < fuel ->
-  is_pattern I t = true ->
+  t < length (types (ci_reg I)) -> is_pattern I t = true ->
   type_of_tag I c = Some tau ->
-  is_compatible_with cfg fuel (ci_reg I) tau S = Some true ->
-  is_compatible_with cfg fuel (ci_reg I) S t = Some true ->
+  is_compatible_with cfg fuel (ci_xreg I) tau S = Some true ->
+  is_compatible_with cfg fuel (ci_xreg I) S t = Some true ->
   check_type_compatible (compute_type_compatibility cfg fuel I) c t = true.
 Proof. exact istype_complete_cf. Qed.
 Print Assumptions C08_istype_complete_partial.
@@ -135,17 +153,20 @@ Example C08_example_tables :
   cf_domain current_cfg (ci_reg ex_input) 2 = true.
 Proof. vm_compute. repeat split; reflexivity. Qed.
 
-(* F70's mechanism: the process tag of function 0 (receive never, result int) has no
-   `Process(Some never, Some int)` entry in the type table, so NO pattern accepts it — not even a
-   process pattern with unknown directions, to which every process type is assignable *)
+(* F70 (fixed 5eb967d) as a regression statement: the process tag of function 0 (receive never, result
+   int) has no `Process(Some never, Some int)` entry in the program's type table; the tables are computed
+   with that type appended (id 5), so the process pattern with unknown directions accepts the tag.
+   (As found: type_of_tag = None and the verdict false — no pattern at all accepted the top-level
+   process's own pid.) *)
 Definition f70_input : compat_input :=
   mk_input
     (mk_reg [mk_tuple None []; mk_tuple (Some name_ok) []]
             [TUnion []; TTuple 0; TInteger; TCallable 1 2 0; TProcess None None])
     [mk_func 3 [4]] [] [].
 
-Example C08_F70_witness :
-  type_of_tag f70_input (CProcess 0) = None /\
-  check_type_compatible (compute_type_compatibility current_cfg 1000 f70_input) (CProcess 0) 4 = false /\
+Example C08_F70_repaired :
+  type_of_tag f70_input (CProcess 0) = Some 5 /\
+  lookup_type (ci_xreg f70_input) 5 = Some (TProcess (Some 0) (Some 2)) /\
+  check_type_compatible (compute_type_compatibility current_cfg 1000 f70_input) (CProcess 0) 4 = true /\
   type_of_tag f70_input (CFunction 0) = Some 3.
 Proof. vm_compute. repeat split; reflexivity. Qed.
